@@ -128,13 +128,25 @@ impl ParsedValue {
         locale: &Key,
         foreign_keys_paths: &ForeignKeysPaths,
     ) -> Result<Self> {
-        let parsed_value = [
-            Self::find_foreign_key,
-            Self::find_component,
-            Self::find_variable,
-        ]
-        .into_iter()
-        .find_map(|f| f(value, key_path, locale, foreign_keys_paths));
+        type Finder = fn(&str, &KeyPath, &Key, &ForeignKeysPaths) -> Option<Result<ParsedValue>>;
+        // the construct that starts first in the text is the outer one (`<b>$t(key)</b>` is a component around a reference,
+        // `$t(key, {"arg": "<b>x</b>"})` a reference with a component in an argument): the inner ones are found when its parts are parsed.
+        let starts: [(Option<usize>, Finder); 3] = [
+            (value.find("$t("), Self::find_foreign_key),
+            (
+                Self::find_valid_component(value).map(|(_, before, _, _)| before.len()),
+                Self::find_component,
+            ),
+            (value.find("{{"), Self::find_variable),
+        ];
+        let mut finders: Vec<(usize, Finder)> = starts
+            .into_iter()
+            .filter_map(|(start, finder)| start.map(|start| (start, finder)))
+            .collect();
+        finders.sort_by_key(|(start, _)| *start);
+        let parsed_value = finders
+            .into_iter()
+            .find_map(|(_, f)| f(value, key_path, locale, foreign_keys_paths));
         if let Some(parsed_value) = parsed_value {
             parsed_value
         } else {
